@@ -11,7 +11,13 @@ Streams
                 `Use.run` on the same statements, run in the order FORD really correlated,
             (b) property oracle: tables and resolved references equal the standard's
                 accessibility rules, evaluated by an independent Datalog-style fixpoint,
-            (c) order: FORD's correlation order is a topological order (model `isTopo`);
+                Contained procedures (module procedure + internal procedure) with USE statements of
+                their own are part of both: about half of those USE statements import an entity under
+                an identifier the host already knows with another meaning (host declares a namesake /
+                `only: hostname => remote` / rename without ONLY), where use association must hide host
+                association (F2018 19.5.1.4; model `runN`, theorem nested_tables_exact_partial).
+            (c) order: FORD's correlation order is a topological order, USE statements of contained
+                procedures included (model `isTopo` / `isTopoN`);
                 same tables for every permutation of the file order (all permutations for a
                 sub-sample of projects with <= 4 files, random permutations otherwise).
 """
@@ -68,6 +74,12 @@ def spec_tables(graph, sw=frozenset()):
          exports(M,k,n,e) <- M declares n, accessibility of n is not private
          exports(M,k,l,e) <- M imports (l,e), l not declared private in M,
                              (default accessibility of M is public or l declared public)
+       then, stratum by stratum from the outermost contained procedure inwards (F2018 19.5.1.4,
+       host association):
+         sees(P,k,l,e)    <- host(P) sees (k,l,e), and l is neither the name of an entity
+                             declared in P nor of an entity P obtains by USE (of ANY kind:
+                             class-1 identifiers share one namespace) - a local or
+                             use-associated identifier hides the host's.
     returns {scope: {k: {"all": {name: set(ent)}, "pub": {...}}}}"""
     scopes = {s["name"]: s for s in graph["scopes"] + graph.get("nested", [])}
     mods = {n for n, s in scopes.items() if s["is_mod"]}
@@ -93,12 +105,6 @@ def spec_tables(graph, sw=frozenset()):
     while changed:
         changed = False
         for n, s in scopes.items():
-            if s.get("host"):  # host association: a contained procedure sees what its host sees
-                for k in range(4):
-                    for nm, ents in list(sees[s["host"]][k].items()):
-                        for e in list(ents):
-                            if add(sees[n][k], nm, e):
-                                changed = True
             for u in s["uses"]:
                 if u["mod"] not in mods:
                     continue
@@ -119,6 +125,17 @@ def spec_tables(graph, sw=frozenset()):
                         for e in ents:
                             if add(exps[n][k], l, e):
                                 changed = True
+    # host association, outermost first (graph["nested"] lists a host before its children)
+    for s in graph.get("nested", []):
+        n, h = s["name"], s.get("host")
+        if not h or h not in sees:
+            continue
+        hidden = {d["name"] for d in s["decls"]} | {l for k in range(4) for l in imps[n][k]}
+        for k in range(4):
+            for nm, ents in sees[h][k].items():
+                if nm not in hidden:
+                    for e in ents:
+                        add(sees[n][k], nm, e)
     return {n: {k: {"all": sees[n][k], "pub": exps[n][k] if scopes[n]["is_mod"] else {}} for k in range(4)}
             for n in scopes}
 
@@ -303,49 +320,179 @@ def gen_graph(rng, idx, hist):
                     s["calls"].append(rng.choice(pn))
                 elif hp:
                     s["calls"].append(rng.choice(hp))
+        # ---- a declaration that has the same name (and kind) as an entity exported by a module this
+        #      module does not use: legal, and a contained procedure may `use` that module, whereupon
+        #      the use-associated entity hides this host-associated one (F2018 19.5.1.4)
+        twin = None
+        if is_mod and i >= 1 and not clashy and rng.random() < 0.22:
+            used_here = {u["mod"] for u in s["uses"]}
+            # (names the known defect classes would make visible here are avoided as well, so that
+            #  the namesake never collides with a spuriously imported entity)
+            taken = set(imported) | {d["name"] for d in s["decls"]}
+            for sw in SWITCH_SETS:
+                loose = spec_tables(graph_so_far, sw)
+                taken |= {n for k in range(4) for n in loose[name][k]["all"]}
+            cands = [(j, k, r) for j in range(i) if f"m{j}" not in used_here
+                     for k in range(4) for r in exported[f"m{j}"][k]
+                     if r not in taken and not r.startswith("n") and not any(r in exported[f"m{j}"][k2] for k2 in range(4) if k2 != k)]
+            if cands:
+                j, k, r = rng.choice(cands)
+                # (always private: a public namesake would only make later modules ambiguous)
+                s["decls"].append({"name": r, "kind": k, "acc": "r",
+                                   "form": rng.choice(["sub", "fun"]) if k == K_PROC else "",
+                                   "acc_inline": rng.random() < 0.5, "ref": None})
+                twin = (j, k, r)
+                hist["twin-decl:" + KIND_LETTER[k]] = hist.get("twin-decl:" + KIND_LETTER[k], 0) + 1
         scopes.append(s)
         if is_mod:
             spec = spec_tables({"scopes": scopes})
             exported[name] = {k: sorted(spec[name][k]["pub"]) for k in range(4)}
-        if is_mod and i >= 1 and not clashy and rng.random() < 0.4:
-            gen_nested(rng, i, s, scopes, nested, exported, defects, hist)
+        if is_mod and i >= 1 and not clashy and (twin or rng.random() < 0.4):
+            gen_nested(rng, i, s, scopes, nested, exported, defects, hist, twin)
     hist["shape:" + shape] = hist.get("shape:" + shape, 0) + 1
     hist[f"modules:{nmod}"] = hist.get(f"modules:{nmod}", 0) + 1
     return {"id": idx, "scopes": scopes, "nested": nested}
 
 
-def gen_nested(rng, i, s, scopes, nested, exported, defects, hist):
+SWITCH_SETS = [frozenset(c) for r in range(len(ALL_FEATURES) + 1) for c in itertools.combinations(ALL_FEATURES, r)]
+
+
+def own_clash(spec, name):
+    """does one identifier denote two entities (of any kind) in scope `name`?"""
+    seen = {}
+    for k in range(4):
+        for nm, ents in spec[name][k]["all"].items():
+            for e in ents:
+                seen.setdefault(nm, set()).add((k, e))
+    return any(len(v) > 1 for v in seen.values())
+
+
+def own_clash_any(graph, name):
+    """... by the standard's rules or under any combination of the known defect classes (the
+    classification of a failing project needs single-valued tables for each of them)"""
+    return any(own_clash(spec_tables(graph, sw), name) for sw in SWITCH_SETS)
+
+
+def gen_nested(rng, i, s, scopes, nested, exported, defects, hist, twin=None):
     """module procedure n<i>a (and, mostly, its internal procedure n<i>b) with USE statements of
-    their own: the module then depends on those modules only through get_deps' recursion."""
+    their own: the module then depends on those modules only through get_deps' recursion.
+    About half of these USE statements import an entity under an identifier that is already
+    visible in the host (declared there, or imported there from another module): use association
+    must then hide the host-associated entity, for every kind of entity and every USE form."""
     levels = 2 if rng.random() < 0.7 else 1
     host = s["name"]
     used_at_module_level = {u["mod"] for u in s["uses"]}
+    twin_level = rng.randrange(levels) if twin else None
+    first = len(nested)
+
+    def bump(key):
+        hist[key] = hist.get(key, 0) + 1
+
     for lv in range(levels):
         nm = f"n{i}{'ab'[lv]}"
         ns = {"name": nm, "is_mod": False, "def_pub": True, "host": host, "decls": [], "uses": [],
               "pub_names": [], "priv_names": [], "calls": [], "level": lv + 1}
-        cands = [j for j in range(i)]
-        fresh = [j for j in cands if f"m{j}" not in used_at_module_level]
-        deepest = lv == levels - 1
-        if deepest or rng.random() < 0.5:
-            j = rng.choice(fresh) if fresh and rng.random() < 0.7 else rng.choice(cands)
-            ns["uses"].append(gen_use(rng, f"m{j}", exported[f"m{j}"], i, 7 + lv, defects, False, scopes[j]))
-            hist["nested-use-level:%d" % (lv + 1)] = hist.get("nested-use-level:%d" % (lv + 1), 0) + 1
         nested.append(ns)
         (s if lv == 0 else nested[-2])["decls"].append(
             {"name": nm, "kind": K_PROC, "acc": None, "form": "sub", "acc_inline": False, "ref": None, "inner": nm})
+        cands = [j for j in range(i)]
+        fresh = [j for j in cands if f"m{j}" not in used_at_module_level]
+        deepest = lv == levels - 1
+        nuse = 0
+        if twin_level == lv:
+            # the module whose entity has a namesake in the host module, in a form that admits it
+            j, k, r = twin
+            exp = exported[f"m{j}"]
+            u = {"mod": f"m{j}", "only": False, "items": []}
+            if rng.random() < 0.6:
+                others = sorted({n for kk in range(4) for n in exp[kk]} - {r})
+                u["only"] = True
+                u["items"] = [[r, r]] + [[n, n] for n in rng.sample(others, min(len(others), rng.randint(0, 2)))]
+                rng.shuffle(u["items"])
+            ns["uses"].append(u)
+            nuse += 1
+            bump("nested-shadow:namesake-" + ("only" if u["only"] else "all"))
+        if deepest or rng.random() < 0.5 or nuse:
+            for t in range(rng.choice([1, 1, 1, 2]) - nuse):
+                j = rng.choice(fresh) if fresh and rng.random() < 0.7 else rng.choice(cands)
+                u = gen_use(rng, f"m{j}", exported[f"m{j}"], i, 7 + 2 * lv + t, defects, False, scopes[j])
+                ns["uses"].append(u)
+                nuse += 1
+                if own_clash_any({"scopes": scopes, "nested": nested}, nm):
+                    ns["uses"].pop()  # two USEs of one scope would give one identifier two entities
+                    nuse -= 1
+                    continue
+                if rng.random() < 0.55:
+                    shadow_by_rename(rng, u, ns, scopes, nested, exported, defects, bump)
+        if nuse:
+            bump("nested-use-level:%d" % (lv + 1))
         host = nm
-    deep = nested[-1]
+    # references through the names each procedure sees (types of locals, calls), preferring the
+    # identifiers whose meaning differs from the host's
     spec = spec_tables({"scopes": scopes, "nested": nested})
-    tn = sorted(spec[deep["name"]][K_TYPE]["all"])
-    pn = sorted(n for n in spec[deep["name"]][K_PROC]["all"] if not n.startswith("n"))
-    for q in range(rng.randint(0, 2)):
-        if tn:
-            deep["decls"].append({"name": f"z{i}{q}", "kind": K_VAR, "acc": None, "form": "", "acc_inline": False,
-                                  "ref": rng.choice(tn)})
-    for _ in range(rng.randint(0, 2)):
-        if pn:
-            deep["calls"].append(rng.choice(pn))
+    for ns in nested[first:]:
+        here, up = spec[ns["name"]], spec[ns["host"]]
+        deepest = ns is nested[-1]
+
+        def differs(k, n):
+            return here[k]["all"].get(n) != up[k]["all"].get(n)
+
+        tn = sorted(here[K_TYPE]["all"])
+        pn = sorted(n for n in here[K_PROC]["all"] if not n.startswith("n"))
+        tn_d = [n for n in tn if differs(K_TYPE, n)]
+        pn_d = [n for n in pn if differs(K_PROC, n)]
+        for q in range(rng.randint(0, 2) if deepest else rng.randint(0, 1)):
+            if tn:
+                ns["decls"].append({"name": f"z{i}{ns['level']}{q}", "kind": K_VAR, "acc": None, "form": "",
+                                    "acc_inline": False,
+                                    "ref": rng.choice(tn_d) if tn_d and rng.random() < 0.6 else rng.choice(tn)})
+        for _ in range(rng.randint(0, 2) if deepest else rng.randint(0, 1)):
+            if pn:
+                ns["calls"].append(rng.choice(pn_d) if pn_d and rng.random() < 0.6 else rng.choice(pn))
+
+
+def shadow_by_rename(rng, u, ns, scopes, nested, exported, defects, bump):
+    """give one entity imported by `u` a local name that is already visible in the host of `ns`
+    with another meaning (same kind): `use m, only: hostname => remote` (or, among the defect
+    forms, `use m, hostname => remote`).  Reverted when it would make an identifier ambiguous."""
+    spec = spec_tables({"scopes": scopes, "nested": nested})
+    hostsees = spec[ns["host"]]
+    modexp = spec[u["mod"]] if u["mod"] in spec else None
+    if modexp is None:
+        return
+    cands = []
+    for k in range(4):
+        for hn, hents in hostsees[k]["all"].items():
+            if hn.startswith("n") or len(hents) != 1:
+                continue
+            if any(hn in hostsees[k2]["all"] for k2 in range(4) if k2 != k):
+                continue
+            for r, rents in modexp[k]["pub"].items():
+                if len(rents) == 1 and rents != hents:
+                    cands.append((k, hn, r))
+    if not cands:
+        return
+    k, hn, r = rng.choice(sorted(cands))
+    saved = (u["only"], [list(x) for x in u["items"]])
+    if any(l == hn for l, _ in u["items"]):
+        return
+    if u["only"]:
+        if any(rr == r for _, rr in u["items"]):
+            u["items"] = [[hn, rr] if rr == r else [l, rr] for l, rr in u["items"]]
+        else:
+            u["items"].insert(rng.randint(0, len(u["items"])), [hn, r])
+        form = "only"
+    elif not u["items"] and not (defects and rng.random() < 0.4):
+        u["only"] = True
+        u["items"] = [[hn, r]]
+        form = "only"
+    else:  # rename list without ONLY: everything else of the module comes along
+        u["items"] = [x for x in u["items"] if x[1] != r] + [[hn, r]]
+        form = "bare"
+    if own_clash_any({"scopes": scopes, "nested": nested}, ns["name"]):
+        u["only"], u["items"] = saved
+        return
+    bump(f"nested-shadow:rename-{form}-{KIND_LETTER[k]}")
 
 
 def gen_use(rng, m, exp, i, q, defects, clashy, mscope):
@@ -479,10 +626,25 @@ def render_scope(rng, s, nested=()):
 def model_fields(s):
     flags = ("M" if s["is_mod"] else "P") + ("U" if s["def_pub"] else "R")
     decls = []
-    for d in s["decls"]:
+    # dict order of FORD's all_procs: functions, subroutines, then (generic) interfaces; the other
+    # kinds keep source order.  Only observable when an only-list maps two remote names to one local.
+    rank = {"fun": 0, "sub": 1, "gen": 2}
+    for d in sorted(s["decls"], key=lambda d: rank.get(d["form"], 0) if d["kind"] == K_PROC else 0):
         decls.append(f"{d['name']}:{d['kind']}:{d['acc'] or '-'}")
     return [s["name"], flags, " ".join(s["pub_names"]), " ".join(s["priv_names"]), " ".join(decls),
             str(len(s["uses"]))] + [u["stmt"] for u in s["uses"]]
+
+
+def nested_spec(graph):
+    """`root:host:name` of every contained procedure, hosts before their children"""
+    by = {n["name"]: n for n in graph.get("nested", [])}
+    out = []
+    for n in graph.get("nested", []):
+        root = n["host"]
+        while root in by:
+            root = by[root]["host"]
+        out.append(f"{root}:{n['host']}:{n['name']}")
+    return " ".join(out)
 
 
 # --------------------------------------------------------------------------
@@ -567,11 +729,44 @@ class Impl:
         return obs
 
 
+# Trees before 9594e8c ("keep declarations of a nested scope out of its host's ... name tables")
+# share one dict between a scope and its contained procedures (C07's leak, not this property).
+# Decided at run time by `detect_shared_dict_leak`; on trees without the leak nothing is masked.
+SHARED_DICT_LEAK = False
+
+
+def detect_shared_dict_leak(impl, d: Path) -> bool:
+    """does a local variable of a contained procedure show up in its host's all_vars?"""
+    sub = d / "leakprobe"
+    sub.mkdir(exist_ok=True)
+    f = sub / "probe.f90"
+    f.write_text("module leakprobe_m\n  implicit none\ncontains\n  subroutine leakprobe_s()\n"
+                 "    integer :: leakprobe_v\n  end subroutine leakprobe_s\nend module leakprobe_m\n")
+    fp, sf = impl.fp, impl.sf
+    sf.namelist = sf.NameSelector()
+    orig_find = fp.find_all_files
+    fp.find_all_files = lambda settings: [f]
+    try:
+        with common.quiet():
+            settings = impl.Settings(src_dir=[sub], preprocess=False, dbg=False, warn=False, quiet=True,
+                                     graph=False, search=False, incl_src=False,
+                                     display=["public", "protected", "private"], proc_internals=True)
+            project = fp.Project(settings)
+            project.correlate()
+        return "leakprobe_v" in project.modules[0].all_vars
+    except Exception:  # noqa
+        return False
+    finally:
+        fp.find_all_files = orig_find
+        f.unlink()
+        sub.rmdir()
+
+
 def mask(graph, tables):
-    """FORD shares one dict between a scope and its contained procedures for types, variables and
-    abstract interfaces (C07's sibling/host leak, not this property): where a scope has a contained
-    procedure with USE statements or locals, only its deepest procedure is observed for those kinds."""
-    hosts = {n["host"] for n in graph.get("nested", [])}
+    """On a tree with the shared-dict leak (see SHARED_DICT_LEAK): where a scope has a contained
+    procedure with USE statements or locals, only its deepest procedure is observed for types,
+    variables and abstract interfaces.  Otherwise the identity."""
+    hosts = {n["host"] for n in graph.get("nested", [])} if SHARED_DICT_LEAK else set()
     out = {}
     for n, per in tables.items():
         out[n] = {}
@@ -583,7 +778,7 @@ def mask(graph, tables):
 def expected_refs(graph, tabs):
     """References resolve through the scope's name tables (`tabs`: single-valued)."""
     out = {}
-    hosts = {n["host"] for n in graph.get("nested", [])}
+    hosts = {n["host"] for n in graph.get("nested", [])} if SHARED_DICT_LEAK else set()
     for s in graph["scopes"] + graph.get("nested", []):
         refs = {}
         for d in s["decls"]:
@@ -604,7 +799,7 @@ def expected_refs(graph, tabs):
 
 def refs_of(graph, obs_refs):
     """observed references of the scopes the graph describes (same masking as expected_refs)"""
-    hosts = {n["host"] for n in graph.get("nested", [])}
+    hosts = {n["host"] for n in graph.get("nested", [])} if SHARED_DICT_LEAK else set()
     out = {}
     for s in graph["scopes"] + graph.get("nested", []):
         r = obs_refs.get(s["name"], {})
@@ -639,7 +834,7 @@ def diff_tables(a, b):
 
 
 def is_topo(graph, order):
-    """every scope once, each module after the project modules it uses"""
+    """every scope once, each module after the project modules it and its contained procedures use"""
     mods = {s["name"] for s in graph["scopes"] if s["is_mod"]}
     pos = {n: i for i, n in enumerate(order)}
     if sorted(order) != sorted(s["name"] for s in graph["scopes"]):
@@ -647,6 +842,15 @@ def is_topo(graph, order):
     for s in graph["scopes"]:
         for u in s["uses"]:
             if u["mod"] in mods and u["mod"] != s["name"] and pos[u["mod"]] > pos[s["name"]]:
+                return False
+    # the USE statements of contained procedures count as dependencies of their root (model `isTopoN`)
+    by = {n["name"]: n for n in graph.get("nested", [])}
+    for n in graph.get("nested", []):
+        root = n["host"]
+        while root in by:
+            root = by[root]["host"]
+        for u in n["uses"]:
+            if u["mod"] in mods and u["mod"] != root and pos[u["mod"]] > pos[root]:
                 return False
     return True
 
@@ -821,6 +1025,9 @@ def run(tier: str, seed: int, replay: str | None = None) -> int:
     n_corr_bad = n_oracle_fail = n_clash = n_runs = n_perm_cases = 0
     impl_obs = []
     with common.scratch_dir() as d:
+        global SHARED_DICT_LEAK
+        SHARED_DICT_LEAK = detect_shared_dict_leak(impl, d)
+        hist["host-tables:" + ("masked (shared-dict leak present)" if SHARED_DICT_LEAK else "observed")] = 1
         for gi, g in enumerate(graphs):
             files = g["files"] if fixed_files and "files" in g else prepare(rng, g)
             sub = d / f"g{gi % 16}"
@@ -871,9 +1078,9 @@ def run(tier: str, seed: int, replay: str | None = None) -> int:
         for g, obs in zip(graphs, impl_obs):
             order = obs["order"] if obs and "order" in obs else [s["name"] for s in g["scopes"]]
             fields = []
-            for s in g["scopes"]:
+            for s in g["scopes"] + g.get("nested", []):
                 fields += model_fields(s)
-            reqs.append(["c06.runfixed" if fixed else "c06.run", " ".join(order)] + fields)
+            reqs.append(["c06.runnfixed" if fixed else "c06.runn", " ".join(order), nested_spec(g)] + fields)
         model = drv.batch(reqs)
         for g, obs, mo in zip(graphs, impl_obs, model):
             if obs is None or "error" in obs:
@@ -890,9 +1097,7 @@ def run(tier: str, seed: int, replay: str | None = None) -> int:
                     hist["default:" + ("public" if s["def_pub"] else "private")] = hist.get("default:" + ("public" if s["def_pub"] else "private"), 0) + 1
             mt = parse_model(mo)
             # FORD adds the specific of a generic interface only when `generic`; drop model-only helper decls
-            flat = {sc["name"] for sc in g["scopes"]}
-            w = None if "error" in mt else diff_tables(
-                mask(g, strip_impl(mt)), mask(g, strip_impl({n: t for n, t in obs["tables"].items() if n in flat})))
+            w = None if "error" in mt else diff_tables(mask(g, strip_impl(mt)), mask(g, strip_impl(obs["tables"])))
             if "error" in mt or w:
                 n_corr_bad += 1
                 rep.tie_broken(f"correspondence graph: model and implementation differ on graph {g['id']}: {w}",
@@ -930,8 +1135,11 @@ def run(tier: str, seed: int, replay: str | None = None) -> int:
         input_histogram=dict(sorted(hist.items())),
     )
     rep.assumptions += [
-        "submodules, USE inside contained procedures (C07's host association), operator/assignment generics in only-lists, "
-        "external/intrinsic modules are not modelled; unknown modules are skipped like FORD does",
+        "submodules, operator/assignment generics in only-lists, external/intrinsic modules are not modelled; unknown modules "
+        "are skipped like FORD does; contained procedures (module procedure + internal procedure) are modelled (`runN`) and "
+        "compared, contained procedures of programs and interface bodies are not generated",
+        "hiding of a host identifier by a local or use-associated entity of ANOTHER kind is outside the generator (FORD keeps one "
+        "table per kind; hypothesis SameKindHiding of nested_tables_exact_partial)",
         "CPython re is on the implementation side only; the scanners are its deterministic reading, validated on the micro stream "
         "and pinned to the regex sources by the generated table",
         "projects in which one name denotes two entities in a scope are outside the property's domain (oracle skipped, correspondence kept)",
